@@ -190,6 +190,7 @@ def extract(F, c):
         if b['k'] != 'Block':
             visit_expr(b, stack); return
         pending = {}     # let var -> (range, closure def) for `let vars = (range).map(closure).collect().join(", ")`
+        builders = {}
         for s in b['stmts']:
             if s['k'] == 'Let' and s['init'] is not None:
                 q = unwrap_pat(s['pat'])
@@ -209,6 +210,10 @@ def extract(F, c):
                         cl = [x for x in walk(flt[0]['args'][1]) if x['k'] == 'Closure']
                         filters.append((q['name'], canon(cl[0]['def']) if cl else None, q['var']))
                         continue
+                    i0 = strip(init)
+                    if q.get('mutable') and i0['k'] == 'Call' and (callee_name(i0) or '') in ('std::vec::Vec::new', 'std::vec::Vec::with_capacity'):
+                        builders[q['var']] = init.get('loc')        # a list under construction: filled by a loop of pushes, joined when written
+                        continue
                     if q['name'] in ('root', 'square', 'numcells'):
                         try:
                             size_defs[q['name']] = poly_of(init, cx)
@@ -223,8 +228,36 @@ def extract(F, c):
                 continue
             e = s['expr'] if s['k'] == 'Expr' else None
             if e is None: continue
+            if builders and fill_loop(e, builders, pending): continue
             visit_expr(e, stack, pending)
         if b['expr'] is not None: visit_expr(b['expr'], stack, pending)
+    def fill_loop(e, builders, pending):
+        """`for m in RANGE { [lets] v.push(format!(..)) }` with v a list under construction: the same list as
+        `(RANGE).map(|m| { [lets] format!(..) }).collect()`; registered under a synthetic closure"""
+        while e['k'] in ('Use', 'NeverToAny') or (e['k'] == 'Block' and not e['stmts'] and e['expr'] is not None): e = e['source'] if e['k'] != 'Block' else e['expr']
+        if e['k'] != 'Match' or e.get('source') != 'ForLoopDesugar': return False
+        try: lp = loop_parts(e, cx)
+        except UUndec: return False
+        if lp is None: return False
+        var, rg, lbody = lp
+        b = lbody
+        while b['k'] in ('Use', 'NeverToAny'): b = b['source']
+        if b['k'] != 'Block': return False
+        stmts = list(b['stmts']) + ([{'k': 'Expr', 'expr': b['expr']}] if b['expr'] is not None else [])
+        lets = [st for st in stmts if st['k'] == 'Let']
+        rest = [st for st in stmts if st['k'] != 'Let']
+        if len(rest) != 1: return False
+        call = strip(rest[0]['expr'])
+        if not (call['k'] == 'Call' and callee_name(call) == 'std::vec::Vec::push' and root_var(call['args'][0]) in builders): return False
+        v = root_var(call['args'][0])
+        synth[0] += 1
+        name = 'sudoku_gen::main::{fill-loop#%d}' % synth[0]
+        c.ithir[name] = {'def': name, 'params': [{}, {'pat': {'k': 'Binding', 'var': var, 'name': var.split('#')[0], 'mutable': False}}],
+                         'body': {'k': 'Block', 'stmts': lets, 'expr': call['args'][1], 'loc': e.get('loc')}, 'span': {'loc': e.get('loc')}}
+        pending[v] = (rg, name, None, dict(cx.names), dict(cx.defs), e.get('loc'))
+        del builders[v]
+        return True
+    synth = [0]
     def visit_expr(e, stack, pending=None):
         pending = pending or {}
         while e['k'] in ('Use', 'NeverToAny'): e = e['source']
@@ -270,11 +303,25 @@ def extract(F, c):
             inner = strip(e['scrutinee'])
             wf = [x for x in walk(inner) if x['k'] == 'Call' and (callee_name(x) or '').endswith('write_fmt')]
             if wf:
-                txt = template_text(wf[0])
+                skip = set()
+                for x in walk(wf[0]):
+                    if x['k'] == 'Call' and (callee_name(x) or '').endswith('::join'):
+                        for y in walk(x): skip.add(id(y))
+                txt = ''.join((y['value'] if y.get('lit') == 'Str' else decode_template(y['value'])) for y in walk(wf[0])
+                              if y['k'] == 'Literal' and y.get('lit') in ('Str', 'ByteStr') and id(y) not in skip)
                 refs = [root_var(f) for x in walk(wf[0]) if x['k'] == 'Tuple' for f in x['fields']]
+                joined_sep = None
+                for x in walk(wf[0]):
+                    if x['k'] == 'Tuple':
+                        for f in x['fields']:
+                            g = strip(f)
+                            if g['k'] == 'Call' and (callee_name(g) or '').endswith('::join') and root_var(g['args'][0]) in pending:
+                                refs.append(root_var(g['args'][0]))
+                                joined_sep = [y['value'] for y in walk(g['args'][1]) if y['k'] == 'Literal' and y.get('lit') == 'Str']
                 used = [r for r in refs if r in pending]
                 if used:
                     rg, cl, sep, names, defs, loc = pending[used[0]]
+                    if sep is None: sep = joined_sep
                     emissions.append({'stack': list(stack), 'range': rg, 'closure': cl, 'sep': sep, 'text': txt, 'names': names, 'defs': defs, 'loc': loc})
                 elif '_is_' in txt:
                     tup = [x for x in walk(wf[0]) if x['k'] == 'Tuple' and len(x['fields']) == 2]
